@@ -88,7 +88,7 @@ fn emit_defs9(out: &mut Out) {
         let k = ast::full_key(id);
         let ser = k.to_bytes();
         let pkh = hash160::Hash::hash(&ser);
-        out.line(&format!("D key {} {} {} {}", id, hex(&ser), hex(&k.inner.serialize()), hex(pkh.as_byte_array())), "ok");
+        out.line(&format!("D key {} {} {} {}", id, hex(&ser), hex(&ast::bip67_sort(&k)), hex(pkh.as_byte_array())), "ok");
     }
     for id in 210..240 {
         let ser = ast::xonly_key(id).serialize();
